@@ -253,6 +253,8 @@ func runC04(env *core.Env) {
 		np.BirthDate = &dtpb.Date{ValueUs: 946684800000000, Timezone: "UTC"}
 		np.Deceased = &ppb.Patient_DeceasedX{Choice: &ppb.Patient_DeceasedX_DateTime{DateTime: &dtpb.DateTime{ValueUs: 1700000000000000, Timezone: "+05:30"}}}
 		np.Meta = &dtpb.Meta{LastUpdated: &dtpb.Instant{ValueUs: 1700000000123000, Timezone: "Z"}}
+		np.Extension = append(np.Extension, &dtpb.Extension{Url: &dtpb.Uri{Value: "http://e/time"}, Value: &dtpb.Extension_ValueX{Choice: &dtpb.Extension_ValueX_Time{Time: &dtpb.Time{ValueUs: 30600000000, Precision: dtpb.Time_SECOND}}}},
+			&dtpb.Extension{Url: &dtpb.Uri{Value: "http://e/time-ms"}, Value: &dtpb.Extension_ValueX{Choice: &dtpb.Extension_ValueX_Time{Time: &dtpb.Time{ValueUs: 86399999000, Precision: dtpb.Time_MILLISECOND}}}})
 		resources = append(resources, np)
 	}
 	stdEnv := gen.StdEnv() // shared environment objects
@@ -277,6 +279,16 @@ func runC04(env *core.Env) {
 		}
 		exprs = append(exprs, ex)
 		srcs = append(srcs, s)
+	}
+	// expressions compiled with the Permissive option whose evaluation steps into values that have no fields
+	for _, s := range []string{"Patient.name.given.value.value", "Patient.name.where(given.value.text.empty()).count()", "Patient.birthDate.value.nosuch", "Patient.name.family.value.length.unit", "Patient.name.select(given.value.x | family.value.y).count()", "Patient.active.value.value.value", "%fint.value.value", "(1 | 2).value", "'a'.nosuch.count()"} {
+		ex, cr := fx.Compile(env, s, append(append([]fhirpath.CompileOption{}, co...), compopts.Permissive())...)
+		if ex == nil {
+			env.Skip("permissive-program-does-not-compile: " + s + ": " + trunc(cr.Short(), 60))
+			continue
+		}
+		exprs = append(exprs, ex)
+		srcs = append(srcs, "[Permissive] "+s)
 	}
 	// pristine copies of the shared inputs: evaluation must leave them as they were
 	pristine := make([]proto.Message, len(resources))
@@ -786,7 +798,8 @@ func c04TZ(env *core.Env, resources []fhir.Resource) {
 	h := sha256.New()
 	progs := append([]string{}, c04Sources...)
 	progs = append(progs, "@2020-03-08T02:30:00 + 1 day", "@2020-01-01T00:00:00Z.toString()", "'2020-06-30T23:30:00-11:00'.toDateTime()", "@2020-06-30T23:30:00-11:00 = @2020-07-01T10:30:00Z", "Patient.birthDate.toString()",
-		"Patient.birthDate + 1 day", "Patient.meta.lastUpdated.toString()", "@T23:59:59 + 2 seconds", "today() - 1 day", "now() + 36 hours", "Patient.descendants().where($this is dateTime)", "Patient.descendants().where($this is date).select($this + 1 month)")
+		"Patient.birthDate + 1 day", "Patient.meta.lastUpdated.toString()", "@T23:59:59 + 2 seconds", "today() - 1 day", "now() + 36 hours", "Patient.descendants().where($this is dateTime)", "Patient.descendants().where($this is date).select($this + 1 month)",
+		"%ftime.value", "%ftnp.value", "%fdt.value", "%fdate.value", "%finst.value", "%finp.value", "%ftime.value = '01:02:03'", "%ftime.toString()", "%ftime = @T01:02:03", "%fdt.value.toString()", "%finst.value.toString()", "Observation.value.value", "Patient.extension.value.value", "Patient.extension.where(url = 'http://e/time').value.value = '08:30:00'", "Patient.extension.value.value.toTime()", "Patient.birthDate.value", "Patient.deceased.value", "Patient.meta.lastUpdated.value")
 	// values written with exactly the offsets the tested zones have (standard and daylight-saving time): the Go
 	// runtime represents such an offset by time.Local, every other one by a fresh fixed zone
 	for _, off := range []string{"+05:30", "-03:30", "-02:30", "+12:45", "+13:45", "Z", "+00:00", "-11:00"} {
